@@ -45,8 +45,10 @@ def code_objects_of_module(*modules):
     return out
 
 
-def run_concurrently(bodies, codes, sleep=0.0002, max_yields=20000, timeout=180):
-    """-> (results, yields): results[i] = ("ok", value) | ("exc", repr) | None (still running after timeout)"""
+def run_concurrently(bodies, codes, sleep=0.0002, max_yields=20000, timeout=180, stagger=0.0):
+    """-> (results, yields): results[i] = ("ok", value) | ("exc", repr) | None (still running after timeout)
+    stagger: thread i starts i * stagger seconds after the barrier - threads that run the same code in lockstep all pass a
+    'not yet initialised' test together; a late-comer is the one that finds a half-built structure"""
     mon = sys.monitoring
     mon.use_tool_id(TOOL, "bvm-yieldrun")
     count = [0]
@@ -68,6 +70,8 @@ def run_concurrently(bodies, codes, sleep=0.0002, max_yields=20000, timeout=180)
         workers.add(threading.get_ident())
         try:
             barrier.wait(30)
+            if stagger:
+                time.sleep(stagger * i)
             results[i] = ("ok", bodies[i]())
         except BaseException as e:  # noqa
             results[i] = ("exc", repr(e))
